@@ -68,6 +68,72 @@ CHECKS = {
             "(read back exactly, not assignable, before and after binding / moving).",
             "Bounded pool (2 universes + <=2 constructed, <=3 free law sets); UniverseLaws(applies_to=...) is "
             "not in the property's alphabet and is not driven."),
+    "C04": (G, "DESIGN.md section 4 C04 / 3.4",
+            "exhaustive enumeration of all small ordered multigraphs (construction state graph) x full query-parameter product, against a decision-table oracle",
+            "model_checking",
+            "Every ordered multigraph with <=3 vertices and <=2-3 links over six link classes (both edge classes, a "
+            "subclass of each, TwoEndedLink, another TwoEndedLink subclass; self-loops, parallel edges; every "
+            "construction order) is built on the real code; in every state every vertex x 3 directions x 3 unknown "
+            "modes x 5 filters is compared with an independent oracle (exact list), and the forward/backward "
+            "duality is checked on the real function.",
+            "Caching off; ends are vertices. ERROR mode: if the filter rejects every unknown-class link at v, "
+            "raising and not raising are both accepted."),
+    "C06": (G, "DESIGN.md section 4 C06",
+            "exhaustive enumeration of small ordered multigraphs x start x universe x direction x unknown x filter product; reach-set oracle over the real neighbors()",
+            "model_checking",
+            "For every graph state and every configuration the three traversals' list forms are compared with the "
+            "closure of the start under the real neighbors() within the universe (no repetition, starts with the "
+            "start, exact set, ff_result only removes entries), generator forms with list forms element by element, "
+            "NotImplementedError propagation and termination (expansion budget) are checked.",
+            "Small scope: <=3-5 vertices, <=3-4 links; the 5-vertex space uses undirected links on i<j pairs and "
+            "the lean configuration product; start is a member of the universe."),
+    "C07": (G, "DESIGN.md section 4 C07",
+            "same exhaustive enumeration as C06; order oracle = reference BFS / pre-order DFS / explicit-stack DFS over the real neighbors()",
+            "model_checking",
+            "For every graph state and configuration the list form of bft / dft_recursive / dft_iterative must equal "
+            "the canonical order computed by a reference implementation driven by the real neighbors(); bft's hop "
+            "distance must be non-decreasing; the same call repeated, and the same graph rebuilt on a fresh pool, "
+            "must give the same index sequence.",
+            "Same small scope as C06. A violation that reproduces in only some replays (order depending on id()) "
+            "is still reported."),
+    "C08": (G, "DESIGN.md section 4 C08",
+            "exhaustive enumeration of small graphs x vertex classes x all attribute labellings x start x universe x sought value; oracle = first match of the real traversal",
+            "model_checking",
+            "For every graph state, 3 vertex classes (plain, falsy via __bool__, falsy via __len__), every labelling of "
+            "the vertices over {absent, 1000, (1,2)}, every start and universe, sought values that are equal but not "
+            "identical to the stored ones, an absent value and an absent attribute name, each search must return the "
+            "very object that is the first match in the list its corresponding real traversal returns, or None.",
+            "Edge classes of the two edge families only; caching off."),
+    "C09": (G, "DESIGN.md section 4 C09",
+            "exhaustive enumeration of small ordered multigraphs x ordered pairs x flag/unknown/filter product; set oracle, count relation with neighbors(), unlink on a fresh copy",
+            "model_checking",
+            "In every graph state every ordered pair (incl. a is b) x direction flag x 3 unknown modes x 4 filters: "
+            "find_links vs an independent set oracle, its size vs the multiplicity of b in the real neighbors(a) under "
+            "corresponding settings, and after unlink(a,b) on a fresh copy emptiness for that pair and unchanged "
+            "answers for every other pair.",
+            "Caching off; ends are vertices; same ERROR-mode slack as C04."),
+    "C14": (G, "DESIGN.md section 4 C14",
+            "exhaustive enumeration of small graphs x vertex-class assignments x membership lists x option tables; output parsed back",
+            "model_checking",
+            "Every graph state over 4-5 link classes and vertex classes Vertex/VA/VB, every membership list (subsets, "
+            "reversed, empty) and two option tables: the text is parsed into declaration and relation multisets and "
+            "compared with the members and links (titles, type of the nearest configured class, orientation, arrow ends).",
+            "show_attrs restricted to ^i$; relation lines for links leaving the universe are tolerated if "
+            "attributable to an existing link attached to a member."),
+    "C15": (G, "DESIGN.md section 4 C15",
+            "exhaustive enumeration of small graphs x membership lists x rvfunc/refunc; Network nodes/edges compared with the graph",
+            "model_checking",
+            "Every graph state (directed, undirected and other two-ended links, self-loops, parallel and boundary "
+            "links), every membership list, rvfunc/refunc on and off: node ids and labels, the multiset of arrowed "
+            "edges, every plain edge, and 'every internal link leaves its node pair joined' are checked.",
+            "pyvis merges repeated undirected edges itself; the oracle follows the statement (at least one edge)."),
+    "C16": (G, "DESIGN.md section 4 C16",
+            "exhaustive enumeration of small graphs x membership lists x rfunc x sort; line-by-line expected text from the real neighbors()",
+            "model_checking",
+            "Every graph state, every membership list (subsets, permuted, empty), rfunc in {None, <i>}, sort in {None, i, "
+            "-i, permutation}: the output must consist of exactly the expected lines in the expected order.",
+            "Edge classes of the two edge families; injective sort keys; trailing blanks after the arrow of a "
+            "neighbour-less line are tolerated."),
 }
 
 
